@@ -592,7 +592,7 @@ class ExprMixin(object):
                     kinds.setdefault(('classmethod', a.__func__), []).append(d)
                 elif isinstance(a, staticmethod):
                     kinds.setdefault(('static', a.__func__), []).append(d)
-                elif isinstance(a, types.MemberDescriptorType):
+                elif isinstance(a, (types.MemberDescriptorType, types.GetSetDescriptorType)):
                     kinds.setdefault(('field', None), []).append(d)
                 else:
                     kinds.setdefault(('classattr', id(a)), []).append(d)
